@@ -66,9 +66,44 @@ def main():
         blocks.append(arms)
     if len(blocks) != 3:
         refuse(NAME, f"expected the 3 key-dispatch blocks (ConfigSetter, CliConfigSetter, override_value), found {len(blocks)}")
+    # bin/main.rs `GetOptsOptions::apply_to`: is the `max_width` pair of `--config` applied before the loop over the
+    # `HashMap` of pairs (and skipped inside it)?  Anything that is neither the plain loop nor that shape is refused.
+    mainrs = strip_rust_comments(read(a.repo, "src/bin/main.rs", NAME))
+    mm = re.search(r"impl\s+CliOptions\s+for\s+GetOptsOptions\s*\{", mainrs)
+    if not mm:
+        refuse(NAME, "impl CliOptions for GetOptsOptions not found in src/bin/main.rs")
+    impl_body, _ = block_after(mainrs, mm.start())
+    mm = re.search(r"fn\s+apply_to\s*\(", impl_body)
+    if not mm:
+        refuse(NAME, "GetOptsOptions::apply_to not found")
+    apply_body, _ = block_after(impl_body, mm.start())
+    flat = " ".join(apply_body.split())
+    loops = re.findall(r"for \(key, val\) in self\.inline_config \{(.*?)\} \}", flat + " }")
+    n_override = len(re.findall(r"override_value\(", flat))
+    plain = re.search(r"for \(key, val\) in self\.inline_config \{ config\.override_value\(&key, &val\); \}", flat)
+    first = re.search(r"if let Some\(val\) = self\.inline_config\.get\(\"max_width\"\) \{ config\.override_value\(\"max_width\", val\); \} "
+                      r"for \(key, val\) in self\.inline_config \{ if key != \"max_width\" \{ config\.override_value\(&key, &val\); \} \}", flat)
+    if first and n_override == 2:
+        mw_first = True
+    elif plain and n_override == 1:
+        mw_first = False
+    else:
+        refuse(NAME, "GetOptsOptions::apply_to: the application of the --config pairs has neither of the two shapes understood "
+                     "(plain loop over inline_config / max_width first, then the loop without it)")
+    # `PartialConfig::to_toml`: the options blanked before serialisation
+    mm = re.search(r"pub\s+fn\s+to_toml\s*\(", mod)
+    if not mm:
+        refuse(NAME, "PartialConfig::to_toml not found in src/config/mod.rs")
+    toml_body, _ = block_after(mod, mm.start())
+    hidden = re.findall(r"cloned\.(\w+)\s*=\s*None\s*;", toml_body)
+    if not hidden or "::toml::to_string(&cloned)" not in "".join(toml_body.split()):
+        refuse(NAME, "PartialConfig::to_toml: shape not understood (expected `cloned.<opt> = None;` lines, then ::toml::to_string(&cloned))")
+    optnames = {n for (n, _, _) in opts}
+    if not set(hidden) <= optnames:
+        refuse(NAME, f"to_toml blanks names that are not options: {sorted(set(hidden) - optnames)}")
     names = ["configSetter", "cliConfigSetter", "overrideValue"]
     # was_set marking: which of the three paths mark `.1 = true`
-    L = ["/- GENERATED by translate/c14_options.py from src/config/{mod,options,config_type}.rs.  Do not edit. -/",
+    L = ["/- GENERATED by translate/c14_options.py from src/config/{mod,options,config_type}.rs and src/bin/main.rs.  Do not edit. -/",
          "namespace RF.Gen.Options\n",
          "/-- (option name, option type struct, stable) in declaration order -/",
          "def options : List (String × String × Bool) := [" + ", ".join(f"({q(n)}, {q(t)}, {s})" for n, t, s in opts) + "]\n",
@@ -79,6 +114,10 @@ def main():
         L.append(f"/-- key dispatch after a value is stored through `{nm}`: (keys, method called) -/")
         L.append(f"def {nm}Dispatch : List (List String × String) := [" + ", ".join(
             "([" + ", ".join(q(k) for k in ks) + f"], {q(meth)})" for ks, meth in arms) + "]\n")
+    L.append("/-- options that `PartialConfig::to_toml` (src/config/mod.rs) blanks before printing -/")
+    L.append("def tomlHidden : List String := [" + ", ".join(q(h) for h in hidden) + "]\n")
+    L.append("/-- bin/main.rs `apply_to`: the `--config max_width=…` pair is applied before the other pairs -/")
+    L.append(f"def inlineMaxWidthFirst : Bool := {'true' if mw_first else 'false'}\n")
     L.append("end RF.Gen.Options\n")
     changed = write_if_changed(os.path.join(a.out, "Options.lean"), "\n".join(L))
     ed = [d_[0] for d_ in defaults if d_[3]]
